@@ -2,6 +2,8 @@ package main
 
 import (
 	"fmt"
+	"os"
+	"sync"
 	"go/constant"
 	"go/token"
 	"go/types"
@@ -96,6 +98,7 @@ type Stats struct {
 	Unwind       int
 	Covers       map[string]int
 	CacheHits    int
+	AltQueries   int
 }
 
 type Engine struct {
@@ -103,6 +106,8 @@ type Engine struct {
 	pkg    *ssa.Package
 	ts     *TermStore
 	solver *Solver
+	alt    *Solver
+	altKind string
 	harness string
 
 	// per path
@@ -127,7 +132,7 @@ type Engine struct {
 	extGlobal map[string]*Cell
 
 	// per harness
-	work        [][]decision
+	pool        *WorkPool
 	unwind      int
 	maxSteps    int64
 	maxPaths    int
@@ -148,6 +153,8 @@ type Engine struct {
 	knownHit    map[string]*Violation
 	timeNow     *Term
 	nowSeq      int
+	model       *Model
+	pathVars    []*Term
 	crcSeq      int
 	rndSeq      int
 	debug       bool
@@ -214,27 +221,115 @@ func (e *Engine) resetPath(prefix []decision) {
 	e.goCalls = nil
 	e.timeNow = nil
 	e.nowSeq, e.crcSeq, e.rndSeq = 0, 0, 0
+	e.pathVars = e.pathVars[:0]
 }
 
-// RunHarness explores all paths of fn within bounds.
-func (e *Engine) RunHarness(fn *ssa.Function) {
+// WorkPool is the shared list of pending path prefixes of one harness.
+type workItem struct {
+	prefix []decision
+	seed   map[string]uint64
+}
+
+type WorkPool struct {
+	mu     sync.Mutex
+	cond   *sync.Cond
+	items  []workItem
+	active int
+	stop   bool
+	paths  int
+}
+
+func NewWorkPool() *WorkPool {
+	w := &WorkPool{items: []workItem{{}}}
+	w.cond = sync.NewCond(&w.mu)
+	return w
+}
+
+func (w *WorkPool) push(p []decision, seed map[string]uint64) {
+	w.mu.Lock()
+	w.items = append(w.items, workItem{p, seed})
+	w.mu.Unlock()
+	w.cond.Signal()
+}
+
+// pop blocks until a prefix is available; ok=false when the exploration is over.
+func (w *WorkPool) pop() (workItem, bool) {
+	w.mu.Lock()
+	defer w.mu.Unlock()
+	for {
+		if w.stop {
+			return workItem{}, false
+		}
+		if n := len(w.items); n > 0 {
+			p := w.items[n-1]
+			w.items = w.items[:n-1]
+			w.active++
+			w.paths++
+			return p, true
+		}
+		if w.active == 0 {
+			w.cond.Broadcast()
+			return workItem{}, false
+		}
+		w.cond.Wait()
+	}
+}
+
+func (w *WorkPool) done() {
+	w.mu.Lock()
+	w.active--
+	w.mu.Unlock()
+	w.cond.Broadcast()
+}
+
+func (w *WorkPool) halt() {
+	w.mu.Lock()
+	w.stop = true
+	w.mu.Unlock()
+	w.cond.Broadcast()
+}
+
+func (w *WorkPool) pending() (int, int) {
+	w.mu.Lock()
+	defer w.mu.Unlock()
+	return len(w.items), w.paths
+}
+
+var cpuTokens = make(chan struct{}, 16)
+
+// RunWorker explores paths of fn taken from the shared pool until it is empty.
+func (e *Engine) RunWorker(fn *ssa.Function, firstPrefix workItem) {
 	e.harness = fn.Name()
-	e.work = [][]decision{nil}
 	e.qcache = map[string]Result{}
-	for len(e.work) > 0 {
-		if e.maxPaths > 0 && e.stats.Paths >= e.maxPaths {
-			e.inconclusive = append(e.inconclusive, fmt.Sprintf("path budget %d exhausted with %d prefixes pending", e.maxPaths, len(e.work)))
+	haveFirst := true
+	for {
+		prefix, ok := firstPrefix, true
+		if !haveFirst {
+			prefix, ok = e.pool.pop()
+		}
+		haveFirst = false
+		if !ok {
+			return
+		}
+		pend, paths := e.pool.pending()
+		if e.maxPaths > 0 && paths > e.maxPaths {
+			e.inconclusive = append(e.inconclusive, fmt.Sprintf("path budget %d exhausted with %d prefixes pending", e.maxPaths, pend))
+			e.pool.done()
+			e.pool.halt()
 			return
 		}
 		if !e.deadline.IsZero() && time.Now().After(e.deadline) {
-			e.inconclusive = append(e.inconclusive, fmt.Sprintf("time budget exhausted with %d prefixes pending after %d paths", len(e.work), e.stats.Paths))
+			e.inconclusive = append(e.inconclusive, fmt.Sprintf("time budget exhausted with %d prefixes pending after %d paths", pend+1, paths))
+			e.pool.done()
+			e.pool.halt()
 			return
 		}
-		prefix := e.work[len(e.work)-1]
-		e.work = e.work[:len(e.work)-1]
-		end := e.runPath(fn, prefix)
+		cpuTokens <- struct{}{}
+		end := e.runPath(fn, prefix.prefix, prefix.seed)
+		<-cpuTokens
 		e.stats.Paths++
 		e.stats.Instrs += e.steps
+		halt := false
 		switch end.kind {
 		case "done":
 			e.stats.PathsDone++
@@ -251,19 +346,29 @@ func (e *Engine) RunHarness(fn *ssa.Function) {
 			}
 		case "infeasible":
 			e.stats.Infeasible++
+		case "timeout":
+			pend, paths := e.pool.pending()
+			e.inconclusive = append(e.inconclusive, fmt.Sprintf("time budget exhausted inside a path with %d prefixes pending after %d paths", pend, paths))
+			halt = true
 		case "unwind":
 			e.stats.Unwind++
 			e.inconclusive = append(e.inconclusive, "unwinding assertion failed: "+end.msg)
 		case "violation":
 			if e.stopAtFirst && len(e.violations) > 0 {
-				return
+				halt = true
 			}
+		}
+		e.pool.done()
+		if halt {
+			e.pool.halt()
+			return
 		}
 	}
 }
 
-func (e *Engine) runPath(fn *ssa.Function, prefix []decision) (end pathEnd) {
+func (e *Engine) runPath(fn *ssa.Function, prefix []decision, seed map[string]uint64) (end pathEnd) {
 	e.resetPath(prefix)
+	e.model = NewModel(seed)
 	defer func() {
 		if r := recover(); r != nil {
 			switch x := r.(type) {
@@ -312,12 +417,55 @@ func (e *Engine) addPC(t *Term) {
 		}
 	}
 	e.pc = append(e.pc, t)
+	if e.model != nil && e.model.Eval(t) != 1 {
+		e.model = nil
+	}
+}
+
+// newVar creates a solver variable that belongs to the current path.
+func (e *Engine) newVar(name string, s Sort) *Term {
+	t := e.ts.Var(name, s)
+	e.pathVars = append(e.pathVars, t)
+	return t
+}
+
+func (e *Engine) modelFrom(m map[*Term]uint64) map[string]uint64 {
+	out := make(map[string]uint64, len(m))
+	for t, v := range m {
+		if t.op == OpVar {
+			out[t.name] = v
+		}
+	}
+	return out
+}
+
+// feasible decides pc ∧ c; on sat it returns a model (variable name -> value).
+func (e *Engine) feasible(c *Term) (Result, map[string]uint64) {
+	if len(e.pathVars) == 0 {
+		r, _ := e.query(c, nil)
+		return r, nil
+	}
+	if r, ok := e.qcache[e.pcKey(c)]; ok && r == Unsat {
+		e.stats.CacheHits++
+		return r, nil
+	}
+	r, m := e.query(c, e.pathVars)
+	if r == Unsat {
+		e.qcache[e.pcKey(c)] = r
+	}
+	if r == Sat {
+		return r, e.modelFrom(m)
+	}
+	return r, nil
 }
 
 // query checks pc ∧ extra, with caching.
 func (e *Engine) query(extra *Term, wantModel []*Term) (Result, map[*Term]uint64) {
 	if extra.IsConst() && extra.val == 0 {
 		return Unsat, nil
+	}
+	if !e.deadline.IsZero() && time.Now().After(e.deadline) {
+		panic(pathEnd{kind: "timeout"})
 	}
 	key := ""
 	if wantModel == nil {
@@ -328,7 +476,20 @@ func (e *Engine) query(extra *Term, wantModel []*Term) (Result, map[*Term]uint64
 		}
 	}
 	asserts := append(append([]*Term{}, e.pc...), extra)
+	t0 := time.Now()
 	r, m := e.solver.Check(asserts, wantModel)
+	if r == Unknown && e.altKind != "" {
+		if e.alt == nil {
+			e.alt, _ = NewSolver(e.altKind, e.solver.timeoutMs)
+		}
+		if e.alt != nil {
+			r, m = e.alt.Check(asserts, wantModel)
+			e.stats.AltQueries++
+		}
+	}
+	if d := time.Since(t0); e.debug && d > 2*time.Second {
+		fmt.Fprintf(os.Stderr, "[%s] slow query %.1fs -> %v (pc=%d) at %s\n", e.harness, d.Seconds(), r, len(e.pc), e.where())
+	}
 	if r == Unknown {
 		e.stats.Unknowns++
 	}
@@ -354,6 +515,16 @@ func (e *Engine) choose(conds []*Term, loopKey *ssa.BasicBlock) int {
 		return d.choice
 	}
 	var feas []int
+	seeds := map[int]map[string]uint64{}
+	free := -1
+	if e.model != nil {
+		for i, c := range conds {
+			if e.model.Eval(c) == 1 {
+				free = i
+				break
+			}
+		}
+	}
 	for i, c := range conds {
 		if c.IsConst() {
 			if c.val == 1 {
@@ -361,23 +532,39 @@ func (e *Engine) choose(conds []*Term, loopKey *ssa.BasicBlock) int {
 			}
 			continue
 		}
-		r, _ := e.query(c, nil)
+		if i == free {
+			feas = append(feas, i)
+			continue
+		}
+		r, m := e.feasible(c)
 		if r != Unsat {
 			feas = append(feas, i)
+			seeds[i] = m
 		}
 	}
 	if len(feas) == 0 {
 		panic(pathEnd{kind: "infeasible"})
 	}
+	// prefer the alternative the current model already satisfies
+	if free >= 0 {
+		for k, f := range feas {
+			if f == free {
+				feas[0], feas[k] = feas[k], feas[0]
+			}
+		}
+	}
 	forked := len(feas) > 1
 	base := append([]decision{}, e.trail...)
 	for k := len(feas) - 1; k >= 1; k-- {
 		p := append(append([]decision{}, base...), decision{feas[k], true})
-		e.work = append(e.work, p)
+		e.pool.push(p, seeds[feas[k]])
 		e.stats.Forks++
 	}
 	d := decision{feas[0], forked}
 	e.trail = append(e.trail, d)
+	if seed, ok := seeds[d.choice]; ok && seed != nil && e.model == nil {
+		e.model = NewModel(seed)
+	}
 	e.addPC(conds[d.choice])
 	if forked {
 		e.noteFork(loopKey)
@@ -523,8 +710,26 @@ func (e *Engine) doAssert(c *Term, msg string) {
 		e.addPCsoft(c)
 		return
 	}
-	e.stats.AssertQ++
 	bad := e.ts.Not(c)
+	if e.params["noshort"] == 0 && e.model != nil && e.model.Eval(bad) == 1 {
+		// the current model already is a counterexample
+		if e.debug {
+			e.debugEval(bad)
+		}
+		m := map[*Term]uint64{}
+		for _, n := range e.nondets {
+			if n.Term != nil {
+				m[n.Term] = e.model.Eval(n.Term)
+			}
+		}
+		e.reportViolation("assert", msg, m)
+		e.addPC(c)
+		if rr, _ := e.query(e.ts.True, nil); rr == Unsat {
+			panic(pathEnd{kind: "infeasible"})
+		}
+		return
+	}
+	e.stats.AssertQ++
 	r, _ := e.query(bad, nil)
 	switch r {
 	case Sat:
@@ -608,7 +813,7 @@ func (e *Engine) concretize(t *Term, limit int, what string) uint64 {
 	sort.Slice(vals, func(i, j int) bool { return vals[i] < vals[j] })
 	base := append([]decision{}, e.trail...)
 	for k := len(vals) - 1; k >= 1; k-- {
-		e.work = append(e.work, append(append([]decision{}, base...), decision{int(vals[k]), true}))
+		e.pool.push(append(append([]decision{}, base...), decision{int(vals[k]), true}), nil)
 		e.stats.Forks++
 	}
 	d := decision{int(vals[0]), len(vals) > 1}
@@ -1470,4 +1675,65 @@ func (e *Engine) callClosure(fv FuncV, args []Value, pos token.Pos) Value {
 	}()
 	e.runFrame(fr)
 	return fr.result
+}
+
+// debugEval cross-checks the concrete evaluator against the solver under the current model.
+func (e *Engine) debugEval(root *Term) {
+	var fix []*Term
+	for _, v := range e.pathVars {
+		val := e.model.Eval(v)
+		if v.sort.K == SBool {
+			fix = append(fix, e.ts.Eq(v, e.ts.Bool(val == 1)))
+		} else {
+			fix = append(fix, e.ts.Eq(v, e.ts.BVConst(v.sort.W, val)))
+		}
+	}
+	seen := map[*Term]bool{}
+	var walk func(t *Term) bool
+	walk = func(t *Term) bool {
+		if seen[t] || t.op == OpConst || t.sort.K == SFP {
+			return false
+		}
+		seen[t] = true
+		r, m := e.solver.Check(fix, []*Term{t})
+		if r != Sat {
+			fmt.Fprintf(os.Stderr, "debugEval: fixing vars gives %v\n", r)
+			return true
+		}
+		if m[t] == e.model.Eval(t) {
+			return false
+		}
+		for _, a := range t.args {
+			if walk(a) {
+				return true
+			}
+		}
+		fmt.Fprintf(os.Stderr, "debugEval MISMATCH at %s: solver=%x eval=%x\n", t.render(2), m[t], e.model.Eval(t))
+		for _, a := range t.args {
+			fmt.Fprintf(os.Stderr, "   arg %s = %x (sort %v)\n", a.render(1), e.model.Eval(a), a.sort)
+		}
+		return true
+	}
+	if !walk(root) {
+		for _, p := range e.pc {
+			if walk(p) {
+				return
+			}
+		}
+		fmt.Fprintf(os.Stderr, "debugEval: evaluator agrees with solver on root and pc\n  root=%s\n", root.render(4))
+		var dump func(t *Term, d int)
+		dump = func(t *Term, d int) {
+			fmt.Fprintf(os.Stderr, "  %*s%s = %x\n", 2*(3-d), "", t.render(1), e.model.Eval(t))
+			if d > 0 {
+				for _, a := range t.args {
+					dump(a, d-1)
+				}
+			}
+		}
+		dump(root, 3)
+		for _, v := range e.pathVars {
+			fmt.Fprintf(os.Stderr, "  var %s = %x\n", v.name, e.model.Eval(v))
+		}
+		fmt.Fprintf(os.Stderr, "  trail=%v prefixlen=%d\n", e.trail, len(e.prefix))
+	}
 }
